@@ -516,9 +516,19 @@ pub fn run(cfg: &Cfg, c14: bool) -> (&'static str, Report, String, String) {
             r.sample(|| format!("s={:?}: every history of depth <= {} over {} ops, e.g. {:?}", ss[i], depth, OPS.len(), &OPS[20..23]));
         }
     });
+    // every UTF-8 width next to skip/skip_back/strip/split: a second, smaller exhaustive family
+    let malpha = ["a", ",", "個", "🙂", "\u{ffff}", "\u{80}"];
+    let ms = strings_upto(&malpha, cfg.by(1, 3, 3));
+    rep.merge(par_for(cfg, ms.len(), |i, r| {
+        for &base in bases {
+            let mut cx = Ctx { s: &ms[i], base, c14, hist: Vec::new() };
+            let p = if base == 0 { Parser::new(&ms[i]) } else { Parser::with_start_offset(&ms[i], base) };
+            dfs(r, &mut cx, p, false, cfg.by(1, 2, 3));
+        }
+    }));
     // long random histories
     let nrand = cfg.by(10, 20_000, 200_000);
-    let walpha = ["a", " ", ",", "ñ", "1", "-", "2", "\t", "個", "true", "0", ",,"];
+    let walpha = ["a", " ", ",", "ñ", "1", "-", "2", "\t", "個", "true", "0", ",,", "\u{ffff}", "\u{8000}", "\u{800}", "\u{10ffff}", "\u{80}", "\u{fffd}"];
     rep.merge(par_for(cfg, nrand, |i, r| {
         let mut rng = Rng::new(cfg.seed.wrapping_mul(999_983).wrapping_add(i as u64));
         let s = random_string(&mut rng, &walpha, cfg.by(8, 24, 24));
